@@ -11,7 +11,7 @@ func c18Model(c *Ctx, cs badCase, gotFile, gotLine string, fail func(kind, class
 	// recover the literal's starting line: the Go layouts put `# @genqlient` markers; the pseudo filename is
 	// "<file>:<line of the literal's opening quote>". We know where the definition block starts; the literal
 	// starts StartOffset lines above, depending on the layout.
-	off := map[layoutKind]int{layGoRaw: 2, layGoRawNL: 3, layGoNested: 2}[cs.Layout]
+	off := map[layoutKind]int{layGoRaw: 2, layGoRawNL: 3, layGoNested: 2, layGoRawBlank: 4}[cs.Layout]
 	if off == 0 {
 		return
 	}
